@@ -175,12 +175,38 @@ def api_roundtrip(shape, vals, grid=False):
             problems.append(f"{pname}: warnings/disqualification lost")
         if str(m2.baseline_timezone) != "US/Pacific":
             problems.append(f"{pname}: timezone lost")
-        df = pd.DataFrame({"temperature": temps}, index=idx)
         # other meters' models live in the same process (built after this one, other calendars): they must not matter
         DailyModel(); BillingModel(); DailyModel(settings={"weekday_weekend": {"monday": "weekend", "sunday": "weekday"}})
-        p0 = base._predict(df.copy())  # the original (never stored) model object
-        p1 = m1._predict(df.copy())
-        p2 = m2._predict(df.copy())
+        for form in FRAME_FORMS:
+            problems += _api_predictions(f"{pname}, {form}", form, base, m1, m2, doc, subs, shape, vals, idx, temps)
+    return problems
+
+
+FRAME_FORMS = ("bare temperature column", "frame as the data classes hand it over (their season/weekday labels, usage)",
+               "whole-degree temperatures in an integer column")
+
+
+def _api_predictions(pname, form, base, m1, m2, doc, subs, shape, vals, idx, temps):
+    import pandas as pd
+    problems = []
+    if True:
+        df = pd.DataFrame({"temperature": temps}, index=idx)
+        if form.startswith("frame as"):
+            # the columns DailyReportingData/_merge_meter_temp attaches: labels from the library's default calendars
+            import opendsm.eemeter.models.daily.data as _data
+            df["observed"] = 1.0
+            df["season"] = df.index.month_name().map(_data._const.default_season_def)
+            df["weekday_weekend"] = df.index.day_name().map(_data._const.default_weekday_weekend_def)
+            df = df[["season", "weekday_weekend", "temperature", "observed"]]
+        elif form.startswith("whole-degree"):
+            temps = np.round(temps)
+            df = pd.DataFrame({"temperature": temps.astype("int64")}, index=idx)
+        try:
+            p0 = base._predict(df.copy())  # the original (never stored) model object
+            p1 = m1._predict(df.copy())
+            p2 = m2._predict(df.copy())
+        except Exception as ex:
+            return [f"{pname}: prediction raised {type(ex).__name__}: {str(ex)[:120]}"]
         for col in ("predicted", "predicted_unc", "heating_load", "cooling_load", "season", "day_of_week", "model_split", "model_type"):
             for who, q in (("reloaded model vs the original object", p0), ("second round trip vs first", p2)):
                 a, b = p1[col].to_numpy(), q[col].to_numpy()
